@@ -546,7 +546,10 @@ class TransactionEncode:
                     for key in keys:
                         rows_T[key].append(row.get(key,None))
 
-                yield encoder(["I", item[1], { "_packed": rows_T }])
+                packed = { "_packed": rows_T }
+                if rows and not keys: packed["_n"] = len(rows) #rows without any field still count
+
+                yield encoder(["I", item[1], packed])
 
 class TransactionResult:
     def filter(self, transactions:Iterable[Any]) -> 'Result':
@@ -610,15 +613,15 @@ class TransactionResult:
         val_table.insert([{                                  "evaluator_id":v, **r} for v,r in sorted(val_rows.items())])
 
         for (env_id, lrn_id, val_id), results in sorted(int_rows.items()):
-            if '_packed' in results and results['_packed']:
+            if '_packed' in results and (results['_packed'] or results.get('_n')):
 
                 packed = packed_list2tuple(results['_packed'])
-                N = len(next(iter(packed.values())))
+                N = len(next(iter(packed.values()))) if packed else results['_n']
 
-                packed['environment_id'] = repeat(env_id,N)
-                packed['learner_id'    ] = repeat(lrn_id,N)
-                packed['evaluator_id'  ] = repeat(val_id,N)
-                packed['index'         ] = range(1,N+1)
+                packed['environment_id'] = [env_id]*N
+                packed['learner_id'    ] = [lrn_id]*N
+                packed['evaluator_id'  ] = [val_id]*N
+                packed['index'         ] = list(range(1,N+1))
 
                 int_table.insert(packed)
 
